@@ -293,19 +293,9 @@ func (p *pinner) doPinRecursive(ctx context.Context, c cid.Cid, fetch bool, name
 	p.lock.Lock()
 	defer p.lock.Unlock()
 
-	found, err := p.cidRIndex.HasAny(ctx, cidKey)
+	foundR, err := p.cidRIndex.HasAny(ctx, cidKey)
 	if err != nil {
 		return err
-	}
-	// Do not return immediately! Just remove the recursive pins for the current CID.
-	// This allows the process to continue and the pin to be re-added with a new name.
-	//
-	// TODO: remove this to support multiple pins per CID
-	if found {
-		_, err = p.removePinsForCid(ctx, c, ipfspinner.Recursive)
-		if err != nil {
-			return err
-		}
 	}
 
 	dirtyBefore := p.dirty
@@ -332,7 +322,7 @@ func (p *pinner) doPinRecursive(ctx context.Context, c cid.Cid, fetch bool, name
 	}
 
 	// Only look again if something has changed.
-	if p.dirty != dirtyBefore {
+	if !foundR && p.dirty != dirtyBefore {
 		found, err := p.cidRIndex.HasAny(ctx, cidKey)
 		if err != nil {
 			return err
@@ -343,12 +333,22 @@ func (p *pinner) doPinRecursive(ctx context.Context, c cid.Cid, fetch bool, name
 	}
 
 	// TODO: remove this to support multiple pins per CID
-	found, err = p.cidDIndex.HasAny(ctx, cidKey)
+	found, err := p.cidDIndex.HasAny(ctx, cidKey)
 	if err != nil {
 		return err
 	}
 	if found {
 		_, err = p.removePinsForCid(ctx, c, ipfspinner.Direct)
+		if err != nil {
+			return err
+		}
+	}
+	// Do not return when already pinned recursively! Remove the recursive
+	// pins for the current CID so that the pin is re-added with the new name.
+	// This happens only now, after everything that can fail (fetch, index
+	// lookups), so that a failed call leaves the existing pin intact.
+	if foundR {
+		_, err = p.removePinsForCid(ctx, c, ipfspinner.Recursive)
 		if err != nil {
 			return err
 		}
